@@ -52,6 +52,13 @@ func nonPointerProtoMessage(d *Descriptor, val reflect.Value) (reflect.Value, bo
 //    time.Time
 //    nil - for NULL values
 func (f Valuer) Value() (driver.Value, error) {
+	// A pointer handed in for a column whose type is not a pointer (a filter value such as
+	// Filter{"id": &id}) stands for the value it points to, so that it is serialized exactly like the
+	// column's own values: a pointer to a nil slice is NULL, a pointer to a zero value is an implicit NULL.
+	if !f.Ptr && f.value.Kind() == reflect.Ptr && !f.value.IsNil() {
+		f.value = f.value.Elem()
+	}
+
 	// Return early if the value is nil. Ideally we would do a `i == nil` comparison here, but
 	// unfortunately for us, `nil` is typed and that would always return false. This has to be
 	// before `.Interface()` as that method panics otherwise.
